@@ -11,6 +11,7 @@
 //  h_program                  dispatchProgram with the body (dispatchVoid) replaced by an observing contract stub: C16, C03
 //  h_labels                   two routines of symbolic GOTO / IF / MARK statements + popSymbols + backpatch: C04 unknown label, C03 jumps
 //  h_shape_<k>, h_parse_errors  gen() on the tree shapes of error-free parses / on a failed parse: C02
+// One part of the file is compiled per build (-DGR_PART=1..5: registers, call, program, labels, shapes), each with its own capacities.
 // Written against the container model only (job option native=False).  Assertion texts contain no double quotes.
 #include "Compiler/src/gen.cpp"
 
@@ -77,7 +78,8 @@ static GenState fresh_state() {
 // (nodes are filled in place, field by field: kind and child pointers then stay constants for the symbolic execution, which is
 // what ends the recursion of the traversal on a concrete tree)
 static void mknode(Node &n, Node::Type t, const std::string &tok, Node *l, Node *r) {
-  n.t = t; n.tok = tok; n.file = MFILE; n.line = 1; n.left = l; n.right = r;
+  std::string m; m.__push('m');    // (built locally: a copy from a global string is a byte-wise memcpy in the generated C, which would blur the whole node)
+  n.t = t; n.tok = tok; n.file = m; n.line = 1; n.left = l; n.right = r;
 }
 static bool same_instr(const Instruction &a, const Instruction &b) {
   return (a.op == b.op) & (a.parameters.test.target == b.parameters.test.target) & (a.parameters.test.op1 == b.parameters.test.op1) & (a.parameters.test.op2 == b.parameters.test.op2);
@@ -89,8 +91,6 @@ static int count_err(const GenState &gs, ET t) { int c = 0; for (int i = 0; i < 
 // 4. registers.  Inv_reg(register file): a temporary carries the name TEMP; a variable register is in use for ever, is not a
 // temporary and carries a name other than TEMP (identifiers and loop counters cannot be spelled like TEMP).  Established by
 // dispatchArgs / fetchVariableRegister / fetchTemporary (asserted below), so it holds after generator runs of any length.
-#define REG_PRE 4
-static_assert(REG_PRE + 2 <= GR_REGS, "caps_genrules.hpp out of step with the harness");
 static void sym_regs(FunctionGenState &f, int maxn) {
   int n = pick(0, maxn); CEX_nregs = n;
   for (int i = 0; i < GR_REGS; i++) {
@@ -124,6 +124,8 @@ static int first_named(const FunctionGenState &f, const std::string &v) {
 }
 static VReg reg_at(const FunctionGenState &f, int at) { VReg r = f.register_state.u.d[0]; for (int i = 1; i < GR_REGS; i++) if (i == at) r = f.register_state.u.d[i]; return r; }
 
+#if GR_PART == 1
+#define REG_PRE (GR_REGS - 2)    /* registers of the pre-state; an operation adds at most one, h_regs_seq at most four */
 extern "C" void h_regs_step() {
   init_names();
   FunctionGenState f; f.name = FN[0];
@@ -200,6 +202,7 @@ extern "C" void h_regs_seq() {
   ASSERT(0, "WITNESS: end of h_regs_seq reachable");
 }
 
+#endif
 // =========================================================================================================
 // symbolic table of closed definitions: 0..2 entries with names from {f, g}; Prog{ind, mi, argnum in 0..2, stack_size >= argnum}
 struct FA { int nf; bool first_g; Prog p[2]; bool has[3]; Prog of[3]; };
@@ -228,16 +231,18 @@ static bool funcs_same(const GenState &gs, const FA &fa) {
   if (fa.nf >= 2) ok = ok && gs.funcAddrs.u.d[1].first == FN[1] && same_prog(gs.funcAddrs.u.d[1].second, fa.p[1]);
   return ok;
 }
-// code emitted so far: n0 in 1..maxn instructions, the first one the root PREPARE, the others arbitrary
-static int sym_code(GenState &gs, int maxn) {
-  int n0 = pick(1, maxn); CEX_n0 = n0;
+// code emitted so far: n0 instructions, the first one the root PREPARE, the others arbitrary.  The LENGTH is a constant of the
+// entry: with a symbolic length every emit() writes at a symbolic offset into the GenState object, which CBMC encodes as a
+// byte-wise update of the whole object (the dominating cost of these queries); nothing in the generator depends on the
+// absolute position.
+static int sym_code(GenState &gs, int n0) {
+  CEX_n0 = n0;
   gs.emit(Instruction::PrepareExec(-1, -1, 0));
-  for (int i = 1; i < GR_CODE; i++) if (i < maxn) {
+  for (int i = 1; i < GR_CODE; i++) if (i < n0) {
     Instruction ins; ins.op = (OpCode)pick(0, 11);
     ins.parameters.test.target = nondet_int(); ins.parameters.test.op1 = nondet_int(); ins.parameters.test.op2 = nondet_int();
-    gs.out.code.u.d[i] = ins;
+    gs.emit(ins);
   }
-  gs.out.code.n = n0;
   return n0;
 }
 
@@ -246,25 +251,27 @@ static int sym_code(GenState &gs, int maxn) {
 // (K = 1: NAME, K = 0: NUMBER) are fixed per entry (the node kinds steer the recursion of the traversal, a symbolic kind would make
 // the symbolic execution clone the recursion up to the unwinding bound); names, literal digits, the table of definitions, the
 // register file, the code emitted so far and the result register are symbolic.
+#if GR_PART == 2
+static void sym_arg(Node &n, bool is_name, int k) {
+  int nm = pick(0, 2); int digit = pick(0, 9);
+  std::string lit; lit.__push((char)('0' + digit));
+  if (is_name) mknode(n, Node::Type::NAME, sel3(VN, nm), NULL, NULL); else mknode(n, Node::Type::NUMBER, lit, NULL, NULL);
+  CEX_arg_kind[k] = is_name; CEX_arg_name[k] = is_name ? nm : digit;
+}
 template <int NA, int K0, int K1> static void call_case() {
   GenState gs = fresh_state();
-  int n0 = sym_code(gs, 2);
+  int n0 = sym_code(gs, 3);
   FA fa; sym_funcs(gs, fa, n0);
   gs.pushSymbols(std::string("r"));
   sym_regs(gs.getSymbols(), 2);
   ASSUME(inv_reg(gs.getSymbols()));
   int callee = pick(0, 2); const int na = NA; CEX_callee = callee; CEX_nargs = na;
-  Node arg[2];
-  for (int k = 0; k < 2; k++) {
-    bool is_name = k == 0 ? K0 == 1 : K1 == 1; int nm = pick(0, 2); int digit = pick(0, 9);
-    std::string lit; lit.__push((char)('0' + digit));
-    if (is_name) mknode(arg[k], Node::Type::NAME, sel3(VN, nm), NULL, NULL); else mknode(arg[k], Node::Type::NUMBER, lit, NULL, NULL);
-    CEX_arg_kind[k] = is_name; CEX_arg_name[k] = is_name ? nm : digit;
-  }
+  Node a0, a1;     // (separate objects, filled without a loop: an array of nodes indexed by a loop counter is not resolved by the symbolic execution)
+  sym_arg(a0, K0 == 1, 0); sym_arg(a1, K1 == 1, 1);
   // VARGS / MVARGS of parse.cpp: SPLIT(arg1, SPLIT(arg2, NULL)), NULL for an empty list
   Node s2, s1, nm, call;
-  mknode(s2, Node::Type::SPLIT, std::string(), &arg[1], NULL);
-  mknode(s1, Node::Type::SPLIT, std::string(), &arg[0], NA == 2 ? &s2 : NULL);
+  mknode(s2, Node::Type::SPLIT, std::string(), &a1, NULL);
+  mknode(s1, Node::Type::SPLIT, std::string(), &a0, NA == 2 ? &s2 : NULL);
   mknode(nm, Node::Type::NAME, sel3(FN, callee), NULL, NULL);
   mknode(call, Node::Type::CALL, std::string(), &nm, NA >= 1 ? &s1 : NULL);
   int tgt = nondet_int(); ASSUME(tgt >= 0); CEX_tgt = tgt;
@@ -318,3 +325,133 @@ CALL_ENTRY(h_call_2nn, 2, 1, 1)
 CALL_ENTRY(h_call_2nc, 2, 1, 0)
 CALL_ENTRY(h_call_2cn, 2, 0, 1)
 CALL_ENTRY(h_call_2cc, 2, 0, 0)
+#endif
+
+// =========================================================================================================
+// 2. dispatchProgram with the body replaced by an observing contract stub (job option stubs: dispatchVoid -> stub_body).
+// NP = number of parameters (0: the PORTS node is absent, as for PROGRAM f DO ... END), HAS_OUT: an OUT port is declared.
+// Symbolic: routine name in {f, g, h}, table of closed definitions, parameter names and OUT name in {a, b, c} (equal names
+// allowed), the content of the code / labels / jump list emitted so far.
+#if GR_PART == 3
+static struct BodyCtx {
+  FA *fa; Node *body; int calls; int routine; int np; int param[2]; int n_entry; int syms_entry;
+  int k; int var; bool tmp; int regs_after; int var_reg;
+} B;
+extern "C" void stub_body(GenState &gs, Node *c) {
+  B.calls++;
+  ASSERT(c == B.body, "C16: dispatchProgram hands exactly the body of the definition to the traversal");
+  ASSERT(funcs_same(gs, *B.fa), "C16: while the body of a routine is compiled the table of closed definitions is the one from before its header: the routine itself is not callable, a name defined earlier still denotes the earlier routine");
+  ASSERT((int)gs.symbols.size() == B.syms_entry + 1 && gs.getSymbols().name == sel3(FN, B.routine), "C03: the body is compiled in a fresh symbol table carrying the name of the routine");
+  FunctionGenState &f = gs.getSymbols();
+  bool params = f.argnum == B.np && (int)f.register_state.size() == B.np;
+  for (int i = 0; i < 2; i++) if (i < B.np) { const VReg &r = f.register_state.u.d[i]; params = params && !r.is_temp && r.in_use && r.name == sel3(VN, B.param[i]); }
+  ASSERT(params, "C03: parameter k occupies register k of the routine (also when a name is repeated), argnum is the number of parameters");
+  ASSERT(gs.getNextPos() == B.n_entry + 1, "C03: the entry of the routine is the position right after the JMP that skips it");
+  ASSERT(f.marks.size() == 0, "C04: a routine starts without labels");
+  // effect of a body: a temporary and one arbitrary instruction other than a breakpoint site.  (The COUNTS are fixed: a symbolic
+  // count - also one that merely depends on a comparison of symbolic names, as fetching a variable would - makes every later write
+  // into the GenState a write at a symbolic offset, see sym_code.)
+  B.var_reg = -1;
+  { int t = f.fetchTemporary(); f.releaseTemporary(t); }
+  {
+    Instruction ins; ins.op = (OpCode)pick(1, 11);
+    ins.parameters.test.target = nondet_int(); ins.parameters.test.op1 = nondet_int(); ins.parameters.test.op2 = nondet_int();
+    gs.emit(ins);
+  }
+  B.regs_after = (int)f.register_state.size();
+}
+static const StackMapIndex NO_MAP = -7;
+template <int NP, int HAS_OUT> static void program_case() {
+  GenState gs = fresh_state();
+  int n0 = sym_code(gs, 2);
+  FA fa; sym_funcs(gs, fa, n0);
+  // jump bookkeeping and stack maps of the code emitted so far
+  // (one older label, one older jump, one older stack map: sizes are constants for the reason given at sym_code, contents arbitrary)
+  const int nl = 1, nt = 1, ns = 1;
+  gs.labels.push_back(nondet_int());
+  gs.backpatching_todo.push_back(0);
+  { Program::StackMap old; gs.out.stack_maps.push_back(old); }
+  gs.pushSymbols(std::string("#root"));
+  int routine = pick(0, 2); CEX_rname = routine;
+  int p0 = pick(0, 2), p1 = pick(0, 2), o = pick(0, 2); CEX_param[0] = p0; CEX_param[1] = p1; CEX_out = o; CEX_nparams = NP; CEX_has_out = HAS_OUT;
+  // S / PORTS / OPORTS / ARGS / MARGS of parse.cpp
+  Node name, id0, id1, a1, a0, outn, ports, hdr, bodyst, endn, endm, bodysp, prog;
+  mknode(name, Node::Type::NAME, sel3(FN, routine), NULL, NULL);
+  mknode(id0, Node::Type::NAME, sel3(VN, p0), NULL, NULL);
+  mknode(id1, Node::Type::NAME, sel3(VN, p1), NULL, NULL);
+  mknode(a1, Node::Type::SPLIT, std::string(), &id1, NULL);
+  mknode(a0, Node::Type::SPLIT, std::string(), &id0, NP == 2 ? &a1 : NULL);
+  mknode(outn, Node::Type::NAME, sel3(VN, o), NULL, NULL);
+  mknode(ports, Node::Type::SPLIT, std::string(), &a0, HAS_OUT ? &outn : NULL);
+  mknode(hdr, Node::Type::SPLIT, std::string(), &name, NP >= 1 ? &ports : NULL);
+  mknode(bodyst, Node::Type::STOP, std::string(), NULL, NULL);
+  mknode(endn, Node::Type::NAME, std::string("END"), NULL, NULL);
+  mknode(endm, Node::Type::MARK, std::string(), &endn, NULL);
+  mknode(bodysp, Node::Type::SPLIT, std::string(), &bodyst, &endm);
+  mknode(prog, Node::Type::PROGRAM, std::string(), &hdr, &bodysp);
+  B.fa = &fa; B.body = &bodysp; B.calls = 0; B.routine = routine; B.np = NP; B.param[0] = p0; B.param[1] = p1; B.n_entry = n0; B.syms_entry = 1;
+  B.k = 1; B.var = -1; B.tmp = true;
+
+  dispatchProgram(gs, &prog);
+
+  ASSERT(B.calls == 1, "C16: dispatchProgram compiles the body exactly once");
+  ASSERT(gs.errors.size() == 0, "C04: a definition without labels and calls records no error");
+  ASSERT(gs.symbols.size() == 1, "C03: the symbol table of the routine is closed again");
+  // reference: which register holds the result (OUT name, x0 by default): parameters first, then the body's variable, else a new one
+  std::string out_name = HAS_OUT ? sel3(VN, o) : std::string("x0");
+  int ret_reg = -1;
+  if (HAS_OUT) { if (NP == 2 && p1 == o) ret_reg = 1; if (NP >= 1 && p0 == o) ret_reg = 0; }
+  int size = B.regs_after + (ret_reg < 0 ? 1 : 0);
+  if (ret_reg < 0) ret_reg = B.regs_after;
+  int n = (int)gs.out.code.size();
+  ASSERT(n == n0 + 1 + B.k + 1, "C03: a definition emits JMP, the body and RET, nothing else");
+  Instruction jmp = code_at(gs, n0), ret = code_at(gs, n - 1);
+  ASSERT(ret.op == OpCode::RET && ret.parameters.ret.source == ret_reg, "C03: the routine ends with RET(register of the OUT variable, x0 without an OUT port)");
+  // the recorded definition
+  bool has = false; Prog rec; int others = 0; bool others_same = true;
+  for (int s = 0; s < GR_FUNCS; s++) if (s < (int)gs.funcAddrs.size()) {
+    const auto &sl = gs.funcAddrs.u.d[s];
+    bool mine = sl.first == sel3(FN, routine);
+    if (mine) { has = true; rec = sl.second; }
+    else { others++; for (int q = 0; q < 2; q++) if (sl.first == FN[q]) others_same = others_same && fa.has[q] && same_prog(sl.second, fa.of[q]); }
+  }
+  int want_others = (fa.has[0] && routine != 0 ? 1 : 0) + (fa.has[1] && routine != 1 ? 1 : 0);
+  ASSERT(has && others == want_others && others_same, "C16: closing a routine records exactly its own name (replacing an earlier definition of the same name), all other definitions stay");
+  if (has) {
+    ASSERT(rec.ind == n0 + 1, "C03: the recorded entry is the position right after the JMP that skips the routine");
+    ASSERT(rec.ind >= 1 && rec.ind <= n - 1 && n - 1 < n, "C16: a definition is recorded only after its RET was emitted: entry <= index of its RET < current position (establishes Inv_fa)");
+    ASSERT(rec.argnum == NP, "C03: the recorded parameter count is the number of declared parameters");
+    ASSERT(rec.stack_size == size, "C03: the recorded frame size is the final size of the register file of the routine");
+    ASSERT(ret_reg < rec.stack_size && rec.argnum <= rec.stack_size, "C03: the RET register and the parameter registers lie inside the recorded frame");
+    ASSERT(rec.mi == ns && (int)gs.out.stack_maps.size() == ns + 1, "C03: the recorded stack map index is the index of the one stack map pushed for the routine");
+    if ((int)gs.out.stack_maps.size() == ns + 1) {
+      const Program::StackMap &sm = gs.out.stack_maps.__at(ns);
+      bool keys = true, named = false; int nkeys = (int)sm.map.size();
+      for (int s = 0; s < GR_REGS; s++) if (s < nkeys) {
+        int key = sm.map.u.d[s].first;
+        keys = keys && key >= 0 && key < rec.stack_size;
+        if (key == ret_reg) named = sm.map.u.d[s].second == out_name;
+      }
+      ASSERT(keys, "C03: every register listed in the stack map of the routine lies inside its frame");
+      ASSERT(named && sm.func_name == sel3(FN, routine), "C03: the stack map carries the name of the routine and maps the RET register to the name of the result variable");
+      ASSERT(nkeys == size - (B.tmp ? 1 : 0), "C03: the stack map lists exactly the variable registers (no temporaries)");
+    }
+  }
+  // the JMP over the routine
+  ASSERT(jmp.op == OpCode::JMP && jmp.parameters.jmp.offset == nl, "C03: the routine is preceded by a JMP that carries a fresh label");
+  bool listed = (int)gs.backpatching_todo.size() == nt + 1;
+  if (listed) listed = gs.backpatching_todo.__at(nt) == n0;
+  ASSERT(listed, "C03: the JMP over the routine is entered in the list of jumps to patch");
+  bool lab = (int)gs.labels.size() == nl + 1;
+  if (lab) lab = gs.labels.__at(nl) == n;
+  ASSERT(lab, "C03: the label of the JMP over the routine is set to the position after the RET");
+  ASSERT(ret_reg != B.regs_after, "C03(EXISTS): a routine whose result variable gets its register only when RET is compiled");
+  ASSERT(!(fa.has[0] && routine == 0), "C16(EXISTS): a definition whose name was already defined");
+}
+#define PROGRAM_ENTRY(nm, NP, HAS_OUT) extern "C" void nm() { program_case<NP, HAS_OUT>(); ASSERT(0, "WITNESS: end of " #nm " reachable"); }
+PROGRAM_ENTRY(h_program_noports, 0, 0)
+PROGRAM_ENTRY(h_program_1, 1, 0)
+PROGRAM_ENTRY(h_program_1out, 1, 1)
+PROGRAM_ENTRY(h_program_2, 2, 0)
+PROGRAM_ENTRY(h_program_2out, 2, 1)
+#endif
